@@ -38,6 +38,17 @@ func withProcState(procState *types.ProcessState) ProcOpts {
 	}
 }
 
+// the locks that guard the state object travel with it from one instance
+// of a process to the next
+func withProcStateLocks(locks *procStateLocks) ProcOpts {
+	return func(proc *Process) {
+		if locks != nil {
+			proc.stateMtx = &locks.state
+			proc.confMtx = &locks.conf
+		}
+	}
+}
+
 func withProcLog(procLog *pclog.ProcessLogBuffer) ProcOpts {
 	return func(proc *Process) {
 		proc.logBuffer = procLog
